@@ -393,21 +393,25 @@ func checkShard(t failer, l *layout, w *world, m *shardModel) *shardFacts {
 		if len(cpa) != 0 {
 			fail("no flips in the shard, but recipient lists exist: %v", cpa)
 		}
+		// Any long index list other than empty or the placeholder [0] is a deviation of its own.
+		withPlaceholder := -1
 		for c := 0; c < n; c++ {
-			if len(long[c]) != 0 {
-				// The index lists the qualification later reads name flip 0 of a shard that has no flip.
-				if kf.Report(t, "C16", keyZeroFlipPlaceholder,
-					"shard %d has %d candidates and no flip, yet the lottery's long-session index list of candidate %d is %v (GetFlipsDistribution placeholder, lottery.go:265); the lists handed to solvers are empty\n%s",
-					sid, n, c, long[c], l.summary()) {
-					facts.zeroFlipKnown = true
-					// known: accept exactly the placeholder shape, nothing else
-					for c2 := 0; c2 < n; c2++ {
-						if !(len(long[c2]) == 0 || (len(long[c2]) == 1 && long[c2][0] == 0)) {
-							fail("no flips in the shard, candidate %d has long index list %v", c2, long[c2])
-						}
-					}
+			switch {
+			case len(long[c]) == 0:
+			case len(long[c]) == 1 && long[c][0] == 0:
+				if withPlaceholder < 0 {
+					withPlaceholder = c
 				}
-				break
+			default:
+				fail("no flips in the shard, but candidate %d has long index list %v", c, long[c])
+			}
+		}
+		if withPlaceholder >= 0 {
+			// The index lists the qualification later reads name flip 0 of a shard that has no flip.
+			if kf.Report(t, "C16", keyZeroFlipPlaceholder,
+				"shard %d has %d candidates and no flip, yet the lottery's long-session index list of candidate %d is %v (GetFlipsDistribution placeholder, lottery.go:265); the lists handed to solvers are empty\n%s",
+				sid, n, withPlaceholder, long[withPlaceholder], l.summary()) {
+				facts.zeroFlipKnown = true
 			}
 		}
 		return facts
@@ -684,29 +688,41 @@ func minInt(a, b int) int {
 	return b
 }
 
+// pick returns a selector in [0,n) that is close to uniform: rapid's integer
+// generators favour small values, which is wanted for sizes but not for the
+// choice between path classes, so the drawn word is hashed first.
+func pick(t *rapid.T, label string, n int) int {
+	u := rapid.Uint64().Draw(t, label)
+	x := h("pick", u)
+	return int(binary.LittleEndian.Uint64(x[:8]) % uint64(n))
+}
+
 func drawShardSpec(t *rapid.T, maxN int, tag string) shardSpec {
 	var n int
-	sel := rapid.IntRange(0, 99).Draw(t, tag+"sizeSel")
+	sel := pick(t, tag+"sizeSel", 100)
 	switch {
-	case sel < 30:
-		n = rapid.IntRange(0, minInt(12, maxN)).Draw(t, tag+"n")
-	case sel < 50:
-		n = rapid.SampledFrom([]int{1, 2, 3, 7, 8, 9, 10, 12, 13, 14, 15, 16, 17}).Draw(t, tag+"n")
+	case sel < 3:
+		n = 0
+	case sel < 25:
+		n = rapid.IntRange(1, minInt(12, maxN)).Draw(t, tag+"n")
+	case sel < 45:
+		n = rapid.SampledFrom([]int{1, 2, 3, 7, 8, 9, 10, 12, 13, 14, 15, 16, 17, 104, 105}).Draw(t, tag+"n")
 		n = minInt(n, maxN)
-	case sel < 78:
-		n = rapid.IntRange(0, minInt(60, maxN)).Draw(t, tag+"n")
-	case sel < 94:
-		n = rapid.IntRange(0, minInt(200, maxN)).Draw(t, tag+"n")
+	case sel < 72:
+		n = rapid.IntRange(minInt(13, maxN), minInt(60, maxN)).Draw(t, tag+"n")
+	case sel < 91:
+		n = rapid.IntRange(minInt(61, maxN), minInt(200, maxN)).Draw(t, tag+"n")
 	default:
-		n = rapid.IntRange(minInt(200, maxN), maxN).Draw(t, tag+"n")
+		n = maxN - rapid.IntRange(0, maxN/2).Draw(t, tag+"n")
 	}
 	spec := shardSpec{n: n, flipsPer: make([]int, n)}
 	if n == 0 {
 		return spec
 	}
-	mode := rapid.SampledFrom([]string{"0", "1", "2", "7", "8", "9", "all", "all-1", "rand", "oneflip", "ones8"}).Draw(t, tag+"authorsMode")
+	modes := []string{"0", "1", "2", "7", "8", "9", "all", "all-1", "rand", "rand", "oneflip", "ones8"}
+	mode := modes[pick(t, tag+"authorsMode", len(modes))]
 	k := 0
-	flipsMode := rapid.SampledFrom([]int{1, 2, 3, 5, 0, 0}).Draw(t, tag+"flipsMode") // 0 = mixed
+	flipsMode := []int{1, 2, 3, 5, 0, 0}[pick(t, tag+"flipsMode", 6)] // 0 = mixed
 	switch mode {
 	case "0":
 		k = 0
@@ -725,7 +741,7 @@ func drawShardSpec(t *rapid.T, maxN int, tag string) shardSpec {
 	}
 	k = minInt(k, n)
 	var pos []int
-	switch rapid.SampledFrom([]string{"first", "last", "scattered"}).Draw(t, tag+"placement") {
+	switch []string{"first", "last", "scattered"}[pick(t, tag+"placement", 3)] {
 	case "first":
 		for i := 0; i < k; i++ {
 			pos = append(pos, i)
@@ -819,7 +835,7 @@ func buildLayout(salt uint64, specs []shardSpec, seed []byte, withKeys bool) (*l
 
 func drawSeed(t *rapid.T) []byte {
 	seed := make([]byte, 32)
-	switch rapid.IntRange(0, 9).Draw(t, "seedKind") {
+	switch pick(t, "seedKind", 10) {
 	case 0:
 		v := rapid.SampledFrom([]uint64{0, 1, 2, ^uint64(0), 1 << 63, 1<<63 - 1}).Draw(t, "seed64")
 		binary.LittleEndian.PutUint64(seed, v)
@@ -834,7 +850,7 @@ func drawSeed(t *rapid.T) []byte {
 func drawLayout(t *rapid.T, maxN int, withKeys bool) *layout {
 	salt := rapid.Uint64().Draw(t, "salt")
 	shards := 1
-	if rapid.IntRange(0, 4).Draw(t, "twoShards") == 0 {
+	if pick(t, "twoShards", 5) == 0 {
 		shards = 2
 	}
 	specs := make([]shardSpec, shards)
@@ -868,7 +884,7 @@ func drawLayout(t *rapid.T, maxN int, withKeys bool) *layout {
 	}
 
 	// identities the node must leave out: wrong status, or required flips not made (their flips do not take part)
-	if rapid.IntRange(0, 5).Draw(t, "withNonCandidates") == 0 {
+	if pick(t, "withNonCandidates", 6) == 0 {
 		k := rapid.IntRange(1, 3).Draw(t, "nonCandidates")
 		for x := 0; x < k; x++ {
 			shard := rapid.IntRange(1, shards).Draw(t, "ncShard")
